@@ -343,7 +343,7 @@ func ValidateTraceBytes(module string, ndjson []byte, n int, timeout time.Durati
 		return nil, err
 	}
 	tr := &TraceResult{TLC: res}
-	joined := strings.Join(res.Tail, "\n")
+	joined := strings.Join(res.Marks, "\n") + "\n" + strings.Join(res.Tail, "\n")
 	if res.OK() {
 		tr.Accepted = true
 		return tr, nil
